@@ -235,6 +235,7 @@ class Interp:
         self.inline_filter = inline_filter
         self.axioms = axioms
         self.summaries: Dict[str, Callable] = {}  # bare function name -> summary(interp, state, fn, args, node) -> value
+        self.track_index = False  # record every subscript evaluation as an 'index' event (R-EXTENT)
         self.invariants = False  # Houdini order invariants on loops (opt-in: costs a few entailment queries per loop)
         self.n = 0
         self.allocs: Dict[str, Tuple] = {}
@@ -399,7 +400,7 @@ class Interp:
             for y in names:
                 if x != y:
                     cands.append((f"{x}<={y}", cmp_cond("<=", lv[x], lv[y]), ("le", x, y)))
-            if not any(isinstance(a, tuple) and a[0] in ("lv", "hav", "unk") for a in pre_val[x].atoms()):
+            if not any(isinstance(a, tuple) and a[0] in ("unk",) for a in pre_val[x].atoms()):
                 cands.append((f"{x}>=init", cmp_cond(">=", lv[x], pre_val[x]), ("ge0", x)))
                 cands.append((f"{x}<=init", cmp_cond("<=", lv[x], pre_val[x]), ("le0", x)))
         # initially true?
@@ -820,6 +821,30 @@ class Interp:
         if isinstance(v, Tup):
             return K(len(v.items))
         if isinstance(v, View):
+            # length of a simple slice of a whole array: expressed through the length of the array itself
+            if len(v.idx) == 1 and isinstance(v.idx[0], tuple) and v.idx[0][0] == "slice":
+                lo, hi = v.idx[0][1], v.idx[0][2]
+                base = Aff.atom(("len", v.root, ()))
+                st.facts.add(cmp_cond(">=", base, ZERO))
+                cut = ZERO
+                okk = True
+                if lo is not None:
+                    if isinstance(lo, Aff) and lo.is_const() and lo.c >= 0:
+                        cut = cut + lo
+                    else:
+                        okk = False
+                if hi is not None:
+                    if isinstance(hi, Aff) and hi.is_const() and hi.c < 0:
+                        cut = cut - hi
+                    else:
+                        okk = False
+                if okk:
+                    r = Aff.atom(("slen", v.root, show_comp(v.idx[0])))
+                    # r = max(0, base - cut): r >= 0, r >= base - cut, and r <= base - cut when base >= cut
+                    st.facts.add(cmp_cond(">=", r, ZERO))
+                    st.facts.add(cmp_cond(">=", r, base - cut))
+                    st.facts.add(("or", cmp_cond("==", r, base - cut), cmp_cond("==", r, ZERO)))
+                    return r
             a = Aff.atom(("len", v.root, v.idx))
             st.facts.add(cmp_cond(">=", a, ZERO))
             return a
@@ -1157,7 +1182,10 @@ class Interp:
     def subscript(self, base: Any, idx: Tuple[Any, ...], st: State, node: ast.AST) -> Any:
         base = as_view(base)
         if isinstance(base, View):
-            return View(base.root, self.compose_index(st, base.idx, idx))
+            v = View(base.root, self.compose_index(st, base.idx, idx))
+            if self.track_index:
+                self.ev(st, "index", node, root=v.root, idx=v.idx, value=(base.idx, idx))
+            return v
         if isinstance(base, Tup):
             if len(idx) == 1 and isinstance(idx[0], Aff) and idx[0].is_const():
                 k = idx[0].c
